@@ -846,9 +846,13 @@ func (e *env) runCancel(c *Case) ([]F, map[string]interface{}) {
 	var start func(ctx context.Context) chan string
 	query := "{ a }"
 	switch c.Target {
-	case "http":
+	case "http", "http-samekey":
 		if c.When == "during" {
 			query = `{ a boom(mode: "wait") }`
+		}
+		if c.Target == "http-samekey" {
+			// Expensive resolutions with equal cache keys: the later ones wait for the first when the request is cancelled
+			query = `{ twins { eslow } t2: twins { eslow x } }`
 		}
 		start = func(ctx context.Context) chan string {
 			b, _ := json.Marshal(map[string]interface{}{"query": query})
